@@ -326,6 +326,18 @@ func createWriterWithCtx(obs kanzi.OutputBitStream, ctx map[string]any) (*Writer
 		return nil, &IOError{msg: err.Error(), code: kanzi.ERR_INVALID_PARAM}
 	}
 
+	// The codecs select their variant by comparing the names found in the
+	// context: store the canonical spelling instead of the user provided one.
+	if entropyCodec, err = entropy.GetName(this.entropyType); err != nil {
+		return nil, &IOError{msg: err.Error(), code: kanzi.ERR_INVALID_PARAM}
+	}
+
+	if t, err = transform.GetName(this.transformType); err != nil {
+		return nil, &IOError{msg: err.Error(), code: kanzi.ERR_INVALID_PARAM}
+	}
+
+	ctx["entropy"] = entropyCodec
+	ctx["transform"] = t
 	this.blockSize = int(bSize)
 	this.available = 0
 	nbBlocks := 0
@@ -1221,6 +1233,13 @@ func (this *Reader) validateHeaderless() error {
 		if err != nil {
 			return &IOError{msg: err.Error(), code: kanzi.ERR_INVALID_PARAM}
 		}
+
+		// The codecs compare the name found in the context: store the canonical spelling
+		if eName, err = entropy.GetName(this.entropyType); err != nil {
+			return &IOError{msg: err.Error(), code: kanzi.ERR_INVALID_PARAM}
+		}
+
+		this.ctx["entropy"] = eName
 	} else {
 		return &IOError{msg: "Missing entropy in headerless mode", code: kanzi.ERR_MISSING_PARAM}
 	}
@@ -1237,6 +1256,13 @@ func (this *Reader) validateHeaderless() error {
 		if err != nil {
 			return &IOError{msg: err.Error(), code: kanzi.ERR_INVALID_PARAM}
 		}
+
+		// The codecs compare the name found in the context: store the canonical spelling
+		if tName, err = transform.GetName(this.transformType); err != nil {
+			return &IOError{msg: err.Error(), code: kanzi.ERR_INVALID_PARAM}
+		}
+
+		this.ctx["transform"] = tName
 	} else {
 		return &IOError{msg: "Missing transform in headerless mode", code: kanzi.ERR_MISSING_PARAM}
 	}
